@@ -350,7 +350,10 @@ def c13(paths):
                     # the recorded defect: the vault cannot cover the payout, so the insurance fund is drawn on (the cw20
                     # run records the shortfall as bad debt); on native collateral `withdraw` counts the fees the caller
                     # attached as vault balance, draws too little, and the fee transfers that follow fail
-                    if (a.kind == "eng" and a.ok and not b_.ok and int(b_.toks[2]) > 0 and a.verb() in ("close", "open")
+                    # (call sites: close_position_reply / partial close, and update_position_reply when margin is released,
+                    # i.e. a reduce or the re-opening leg of a reversal; an exact reversal pays by plain transfer)
+                    if (a.kind == "eng" and a.ok and not b_.ok and int(b_.toks[2]) > 0
+                            and (a.verb() == "close" or (a.verb() == "open" and path in ("reduce", "reverse-reopen")))
                             and I(a.obs, "e.baddebt") > I(a.pre, "e.baddebt")):
                         cls = "native_fund_draw_short_by_fees"
                     elif a.kind == "eng" and a.verb() == "open":
